@@ -19,6 +19,7 @@ import WhatIs.Oracle.Pem
 import WhatIs.Oracle.PgpSig
 import WhatIs.Oracle.Armor
 import WhatIs.Oracle.DerKey
+import WhatIs.Oracle.SshWire
 /-
   Main.lean — model driver (core-only lean_exe).  Reads case lines
      <op> <args...> => <impl result>
@@ -33,7 +34,7 @@ def splitArrow (line : String) : String × String :=
   | [] => ("", "")
 
 def handlers : List (String → List String → String → Option (String × String)) :=
-  [Oracle.C14.handle, Oracle.C20.handle, Oracle.C17.handle, Oracle.C16.handle, Oracle.C15.handle, Oracle.C13.handle, Oracle.C07.handle, Oracle.C10.handle, Oracle.C18.handle, Oracle.C06.handle, Oracle.C04.handle, Oracle.C03.handle, Oracle.C02.handle, Oracle.C19.handle, Oracle.C05.handle, Oracle.C12.handle, Oracle.C01.handle, Oracle.Pem.handle, Oracle.PgpSig.handle, Oracle.Armor.handle, Oracle.DerKey.handle]
+  [Oracle.C14.handle, Oracle.C20.handle, Oracle.C17.handle, Oracle.C16.handle, Oracle.C15.handle, Oracle.C13.handle, Oracle.C07.handle, Oracle.C10.handle, Oracle.C18.handle, Oracle.C06.handle, Oracle.C04.handle, Oracle.C03.handle, Oracle.C02.handle, Oracle.C19.handle, Oracle.C05.handle, Oracle.C12.handle, Oracle.C01.handle, Oracle.Pem.handle, Oracle.PgpSig.handle, Oracle.Armor.handle, Oracle.DerKey.handle, Oracle.SshWire.handle]
 
 def dispatch (op : String) (args : List String) (impl : String) : String :=
   match handlers.findSome? (fun h => h op args impl) with
